@@ -176,7 +176,8 @@ def rule_plumbing(ck: Check, repo: Repo) -> None:
         raise AnalysisError("anchor vanished: command annotate")
     aq = repo.qualname_of(an)
     check_forward(r, repo, aq, "add_header_to_file", f"{AN}.add_header_to_file", {
-        "path": "path", "reuse_info": "get_reuse_info(copyrights, licenses, contributors, copyright_prefix, get_year(years, exclude_year))",
+        # (which file receives the header - `path` or its .license sibling - is decided by the target table, R4)
+        "reuse_info": "get_reuse_info(copyrights, licenses, contributors, copyright_prefix, get_year(years, exclude_year))",
         "style": "style", "force_multi": "multi_line", "skip_existing": "skip_existing",
         "skip_unrecognised": "skip_unrecognised", "fallback_dot_license": "fallback_dot_license",
         "merge_copyrights": "merge_copyrights", "replace": "not no_replace",
@@ -260,7 +261,9 @@ def rule_target(ck: Check, repo: Repo) -> None:
         tg = [e for e in leaf.events if e[0] == "each" and e[2][0] == "target"]
         short = {k.split("::")[-1]: v for k, v in d.items() if k.startswith(P) or k == "force"}
         got = tg[0][2][1] if tg else None
-        want = "Path(_determine_license_suffix_path(path))" if exp else "path"
+        if got is not None:   # _determine_license_suffix_path returns a Path: a Path(...) around it changes nothing
+            got = re.sub(r"^Path\((_determine_license_suffix_path\(path\))\)$", r"\1", got)
+        want = "_determine_license_suffix_path(path)" if exp else "path"
         r.instance("target:" + show_valuation(short), {"target": got})
         if got != want:
             r.violation(aq, f"header target when [{show_valuation(short)}]", f"{got}; expected {want}", repo.loc(an))
